@@ -1042,7 +1042,7 @@ fn sequence_step<const N: usize, H: HandN<N>>(c: [u8; N], mode: Mode) -> Result<
 
 pub fn check_case_c02(clause: &str, case: &Value) -> Result<(), String> {
     let t = poker::tables();
-    if clause.ends_with(".after_disturbance") || clause.ends_with(".concurrent") || clause.ends_with(".concurrent_cold_start") {
+    if clause.ends_with(".after_disturbance") || clause.ends_with(".concurrent") || clause.ends_with(".concurrent_cold_start") || clause.ends_with(".after_repetition") {
         return replay_after_disturbance(case, check_case_c02);
     }
     if clause == "C02.sequence" {
@@ -1164,7 +1164,7 @@ pub fn run_c03(run: &mut Run) -> PResult {
 }
 
 pub fn check_case_c03(clause: &str, case: &Value) -> Result<(), String> {
-    if clause.ends_with(".after_disturbance") || clause.ends_with(".concurrent") || clause.ends_with(".concurrent_cold_start") {
+    if clause.ends_with(".after_disturbance") || clause.ends_with(".concurrent") || clause.ends_with(".concurrent_cold_start") || clause.ends_with(".after_repetition") {
         return replay_after_disturbance(case, check_case_c03);
     }
     if clause == "C03.sequence" {
@@ -1412,7 +1412,7 @@ pub fn run_c09(run: &mut Run) -> PResult {
 }
 
 pub fn check_case_c09(clause: &str, case: &Value) -> Result<(), String> {
-    if clause.ends_with(".after_disturbance") || clause.ends_with(".concurrent") || clause.ends_with(".concurrent_cold_start") {
+    if clause.ends_with(".after_disturbance") || clause.ends_with(".concurrent") || clause.ends_with(".concurrent_cold_start") || clause.ends_with(".after_repetition") {
         return replay_after_disturbance(case, check_case_c09);
     }
     if clause == "C09.sequence" {
